@@ -105,7 +105,9 @@ func scenC07(r *Run, job *Job) {
 	case 2:
 		r.ReorderNum, r.ReorderDen = 3, 4
 	}
-	if t.Chance(1, 2) && len(r.Sites) > 0 {
+	// unlock-yield pass: every run holds somebody at an explicit unlock point, and across the emulator's timers
+	uy := r.Sched != nil && r.Sched.UnlockYield
+	if withHolds := t.Chance(1, 2); (withHolds || uy) && len(r.Sites) > 0 {
 		nh := 1 + t.Draw(2)
 		for i := 0; i < nh; i++ {
 			site := r.Sites[t.Draw(len(r.Sites))]
@@ -114,7 +116,7 @@ func scenC07(r *Run, job *Job) {
 	}
 	w := r.NewWorld(WorldCfg{TimeoutSec: timeoutSec, ExtFiles: ExtFiles(exts)}, job.Seed)
 	e := w.NewEngine()
-	e.HoldAcrossTimers = len(r.Holds) > 0 && t.Chance(1, 2)
+	e.HoldAcrossTimers = len(r.Holds) > 0 && (t.Chance(1, 2) || uy)
 	maxInv := 16
 	e.Bound = time.Duration(maxInv*(timeoutSec+7)+30) * time.Second
 	e.MaxActions = 3000
